@@ -263,6 +263,7 @@ def rectangle_integral(x, y):
     array([ 2.,  6.,  4.,  8., 10.])
 
     """
+    x, y = np.asarray(x, dtype=float), np.asarray(y, dtype=float)  # integer products overflow
     d = np.diff(x)
     return y[:-1] * d
 
@@ -291,6 +292,7 @@ def trapezoid_integral(x, y):
     array([ 4.,  5.,  6.,  9., 11.])
 
     """
+    x, y = np.asarray(x, dtype=float), np.asarray(y, dtype=float)  # integer sums overflow
     return (y[:-1] + y[1:]) / 2 * np.diff(x)
 
 
